@@ -1,4 +1,5 @@
 import Rain.MakeRoom
+import Rain.MakeRoomCheck
 namespace Rain.Driver
 open Rain.MakeRoom
 
@@ -28,8 +29,33 @@ private def item (s : String) : Option String :=
     | _, _, _, _, _, _, _, _ => none
   | _ => none
 
+private def parseIter (s : String) : Option (Vars × View) :=
+  match s.splitOn "," with
+  | [f, a, b, l0, fits, e, i, p] =>
+    match bit? f, bit? a, bit? b, l0.toNat?, bit? fits, bit? e, bit? i, bit? p with
+    | some f, some a, some b, some l0, some fits, some e, some i, some p =>
+      some ({ force := f, allowDelay := a },
+            { bad := b, l0 := l0, fits := fits, empty := e, imm := i, prevWal := p })
+    | _, _, _, _, _, _, _, _ => none
+  | _ => none
+
+/-
+`room.call <force 0/1> <items>`: the iterations of ONE call in order (items as for
+`room.branches`; the recorded loop variables are compared with the model's).  Answer:
+`<branches joined by ,> chain=<0/1> coherent=<0/1> rotate=<n> delay=<n> busy=<n>` where `chain` says
+whether the recorded loop variables are the model's, `coherent` evaluates the hypothesis of
+`C09_make_room_never_spins` and the three counts are over the model's run on the recorded views.
+-/
 def roomCmd : List String → Option String
   | ["room.branches", items] => ((items.splitOn ";").mapM item).map (",".intercalate ·)
+  | ["room.call", force, items] =>
+    match bit? force, (items.splitOn ";").mapM parseIter with
+    | some f, some its =>
+      let views := its.map Prod.snd
+      let bs := run (start f) views
+      let bc (b : Bool) : String := if b then "1" else "0"
+      some s!"{",".intercalate (bs.map branchName)} chain={bc (chainB (start f) its)} coherent={bc (coherentB false (start f) views)} rotate={bs.count .rotate} delay={bs.count .delay} busy={busy bs}"
+    | _, _ => none
   | _ => none
 
 end Rain.Driver
